@@ -33,6 +33,9 @@ type Family struct {
 	Sandbox bool
 	// DeadlineMS per case when sandboxed (default 5000).
 	DeadlineMS int
+	// Prepare completes a TLC-generated case with observations only the harness can make
+	// (e.g. answers of freshly built objects) before it is run and recorded.
+	Prepare func(c map[string]interface{}) map[string]interface{}
 }
 
 var families = map[string]*Family{}
@@ -90,6 +93,16 @@ func main() {
 	switch os.Args[2] {
 	case "replay":
 		cases = readCases(os.Args[3])
+		if fam.Prepare != nil {
+			for i, c := range cases {
+				b, _ := json.Marshal(fam.Prepare(c))
+				var m map[string]interface{}
+				d := json.NewDecoder(bytesReader(b))
+				d.UseNumber()
+				d.Decode(&m)
+				cases[i] = m
+			}
+		}
 	case "random":
 		n, _ := strconv.Atoi(os.Args[3])
 		if fam.Random == nil {
